@@ -45,6 +45,8 @@ requires that reading exactly that back gives the instance; that the two ways of
 call panics. Reasons:
   model-roundtrip     `try_from_value(as_value(x))` is not `x`
   rt-mismatch         the harness-side comparison of the `Form` conversions (incl. `into_value/try_convert`) failed
+  value-roundtrip     a type with generic `Value` fields: one of model / Recon (both reading paths, three printers) /
+                      reused recogniser / MessagePack (typed and generic reader) does not give the instance back
   msgpack-write       `MsgPackInterpreter` refused the value
   msgpack-roundtrip   `read_from_msg_pack` of the written bytes is not `x`
   paths-accept        one of `parse_recognize::<T>` / `parse_recognize::<Value>`+`try_from_value` accepts, the other not
@@ -70,6 +72,9 @@ def Mon.step (m : Mon) (line : String) (out : String) : Mon × Option String :=
     | some i => (m, if out == "ok " ++ i then none else some "model-roundtrip")
     | none => (m, none)
   | ["rt", _, _] => (m, if out == "ok" then none else some "rt-mismatch")
+  -- types with generic `Value` fields: the harness ran every conversion path on the instance and compared each result
+  -- with the instance (`ok`), else `mismatch:<paths> c=<label>`
+  | ["vrt", _, _] => (m, if out == "ok" then none else some "value-roundtrip")
   | ["pr", _, _, _] => (m, none)
   | ["txt", _, _] =>
     match words out with
